@@ -19,6 +19,13 @@ journal is empty and needs_recovery is clear.
     journal superblock it FINDS there (tid = observed s_sequence + 0/1, ring position 1, old blocks stay in place,
     target blocks rewritten in place), a crash, and a second replay by all three front-ends.  TLC decides whether a
     journal may be continued (RestartableOf) and validates the second replay against Final of the second life.
+(2c) Transaction identifiers wrap (32 bit): every sequence number of the spec and of the sampled journals is an offset from a
+    per-journal base; the spec states the order of two tids as the sign of their difference modulo 2^32 (Jbd2.tla, section
+    "transaction identifiers", evaluated by TLC on the 16-bit halves of base + offset).  The model checker requires, in every state,
+    the outcome of Recover to be exact for every base of the boundary catalogue (tid 0 / tid 0x80000000 on each transaction a
+    behaviour can reach; Jbd2Gen TidBases, RecoverExactAnyBase);
+    the sampler cycles the same catalogue (jbd2sample.TID_KINDS x TID_POS) through the journals, for both lives of the log; the
+    s_sequence a front-end leaves is compared as the 32-bit value on disk.
 (3) The repository's own j_* test images are decoded by the independent decoder and run the same way (extra traces)."""
 import os, sys, json, random, shutil, subprocess, time, struct, gzip, hashlib, concurrent.futures as cf
 from common import VERIF, fast_tmp, seed, die_broken, NPROC, tool_env, run as crun
@@ -70,16 +77,28 @@ def mc_constants(**kw):
 
 
 def gen_constants(**kw):
-    """Constants of Jbd2Gen (Jbd2 + lives of the log)."""
-    c = mc_constants(MaxGen=1, Skews="{0, 1}", MaxOver=0)
+    """Constants of Jbd2Gen (Jbd2 + lives of the log + catalogue of tid bases)."""
+    c = mc_constants(MaxGen=1, Skews="{0, 1}", MaxOver=0, TidWrapU="{}", TidWrapS="{}", TidSmall="{0}")
     c.update(kw)
     return c
+
+
+def tid_catalogue(last, signed=None):
+    """Boundary catalogue of the tid base for behaviours whose offsets reach `last` (s_sequence the last replay leaves included):
+    tid 0 on every offset 1..last+1 (base 0xffffffff, 0xfffffffe, ..), tid 0x80000000 on the offsets `signed` (default: the same),
+    and the small bases 0 and 3."""
+    u = list(range(1, last + 2))
+    sg = u if signed is None else signed
+    return dict(TidWrapU="{%s}" % ", ".join(map(str, u)), TidWrapS="{%s}" % ", ".join(map(str, sg)), TidSmall="{0, 3}")
 
 
 def model_check(ev, vd, tier, work):
     runs = []
     lit = dict(DevReplayPastBadTag="TRUE", DevScanAbort="TRUE", DevAsyncLastBadCommit="TRUE", DevCommitBreakContinues="TRUE")
     P = ["ReplayExact", "PassesAgree", "GroundTruthSound", "TypeOK"]
+    # The tid runs go through Jbd2Gen (MaxGen = 1: exactly the behaviours of Jbd2): in every state the outcome of Recover must be
+    # exact for every tid base of the catalogue; one life reaches offset MaxTxn + 2 (Bound) and leaves s_sequence <= MaxTxn + 3.
+    AB = ["RecoverExactAnyBase"]
     # two lives of the log (Jbd2Gen): replay, restart from the journal superblock the replay left, new transactions over
     # the old ring, crash, second replay.  ReplayExact in the second life: no block of a first-life transaction comes back.
     G = ["ReplayExact", "PassesAgree", "GroundTruthSound", "GTypeOK"]
@@ -87,8 +106,10 @@ def model_check(ev, vd, tier, work):
     if tier == "quick":
         runs.append(("property-conforming transcription, csum v3", mc_constants(), ["ReplayExact", "ReplayExactAlways", "PassesAgree", "GroundTruthSound", "TypeOK"], None, None))
         runs.append(("literal transcription, csum v3 + async, 2 damages", mc_constants(Async=1, MaxDmg=2, L=5, **lit), ["ReplayExactOrDev", "PassesAgree"], None, None))
-        runs.append(("two lives of the log, L=5, 1 block, partial writes, restart at s_sequence + {0, 1}, in-place rewrite (property-conforming)",
-                     gen_constants(L=5, MaxDmg=0, **two), G, None, None))
+        runs.append(("tid wrap: every base of the catalogue (tid 0 / 0x80000000 on each offset 1..6, bases 0 and 3), csum v3 + async, 1 block, revoke records, 2 damages (property-conforming)",
+                     gen_constants(L=5, Blocks="{1}", Async=1, MaxDmg=2, **tid_catalogue(5)), ["ReplayExact"] + AB + ["GroundTruthSound", "GTypeOK"], None, None))
+        runs.append(("two lives of the log, L=5, 1 block, partial writes, restart at s_sequence + {0, 1}, in-place rewrite, tid 0 on each offset 1..10, 0x80000000 on 2 and 7 (property-conforming)",
+                     gen_constants(L=5, MaxDmg=0, **dict(two, **tid_catalogue(9, [2, 7]))), ["ReplayExact"] + AB + ["GroundTruthSound", "GTypeOK"], None, None))
     else:
         for cs in (0, 1, 2, 3):
             runs.append(("property-conforming, csum %d" % cs, mc_constants(Csum=cs, MaxTags=2 if cs in (0, 3) else 1, OldTime=1 if cs == 2 else 0),
@@ -100,6 +121,16 @@ def model_check(ev, vd, tier, work):
         runs.append(("two lives of the log, L=5, 1 block, partial writes, csum v1 (property-conforming)", gen_constants(L=5, Csum=1, MaxDmg=0, **two), G, None, None))
         runs.append(("two lives of the log, L=4, 1 block, 1 damage, csum v3 + async (literal)", gen_constants(L=4, Async=1, **dict(two, **lit)),
                      ["ReplayExactOrDev", "PassesAgree", "GTypeOK"], None, None))
+        # tid wrap: the outcome of Recover for every base of the catalogue, in every state
+        TW = ["ReplayExact"] + AB + ["GroundTruthSound", "GTypeOK"]
+        runs.append(("tid wrap: every base of the catalogue (tid 0 / 0x80000000 on each offset 1..6, bases 0 and 3), csum v3 + async, 2 blocks, 1 damage (property-conforming)",
+                     gen_constants(L=5, Async=1, **tid_catalogue(5)), TW, None, None))
+        runs.append(("tid wrap: every base of the catalogue, csum v1 + async, 1 block, 2 damages (property-conforming)",
+                     gen_constants(L=5, Blocks="{1}", Csum=1, Async=1, MaxDmg=2, **tid_catalogue(5)), TW, None, None))
+        runs.append(("tid wrap: every base of the catalogue, csum v3 + async, 1 block, 2 damages (literal: a deviation in every inexact outcome)",
+                     gen_constants(L=5, Blocks="{1}", Async=1, MaxDmg=2, **dict(lit, **tid_catalogue(5))), AB + ["GTypeOK"], None, None))
+        runs.append(("tid wrap: two lives of the log, L=4, 1 block, 1 damage, csum v3, tid 0 / 0x80000000 on each offset 1..10 (property-conforming)",
+                     gen_constants(L=4, **dict(two, **tid_catalogue(9))), TW, None, None))
         # beyond the exhaustive bound: simulation
         runs.append(("simulation L=8, 3 txns, 3 blocks, csum v3 + async, escapes, old times (property-conforming)",
                      mc_constants(L=8, Blocks="{1, 2, 3}", MaxTxn=3, MaxTags=2, MaxDmg=2, Async=1, EscSet="{0, 1}", OldTime=1),
@@ -109,12 +140,19 @@ def model_check(ev, vd, tier, work):
                      ["ReplayExact", "PassesAgree", "GroundTruthSound"], 40000, 12))
         runs.append(("simulation two lives of the log, L=6, 2 blocks, 1 damage, csum v3 (property-conforming)",
                      gen_constants(MaxGen=2, Skews="{0, 1}", MaxOver=1), ["ReplayExact", "PassesAgree", "GroundTruthSound"], 4000, 24))
-    for i, (label, consts, invs, sim, depth) in enumerate(runs):
+    def one(i):
+        label, consts, invs, sim, depth = runs[i]
         two_lives = "MaxGen" in consts
         cfg = os.path.join(work, "MC_Jbd2_%d.cfg" % i)
         T.write_cfg(cfg, spec="GSpec" if two_lives else "Spec", constants=consts, invariants=invs, constraints=["GBound" if two_lives else "Bound"])
+        if consts["DevReplayPastBadTag"] == "FALSE":         # property-conforming model: the definition DevTidZeroUnset (default TRUE = the code) is overridden
+            with open(cfg, "a") as f:
+                f.write("CONSTANT DevTidZeroUnset <- PropertyConforming\n")
         modname = "Jbd2Gen" if two_lives else "Jbd2"
-        r = T.tlc(os.path.join(SPEC, modname + ".tla"), cfg, workers=4, timeout=3000, xmx="4g", env=jenv(), simulate=sim, depth=depth)
+        return modname, T.tlc(os.path.join(SPEC, modname + ".tla"), cfg, workers=4, timeout=3000, xmx="4g", env=jenv(), simulate=sim, depth=depth)
+    with cf.ThreadPoolExecutor(max_workers=2) as ex:         # two model-checking runs at a time, 4 workers each
+        done = list(ex.map(one, range(len(runs))))
+    for (label, consts, invs, sim, depth), (modname, r) in zip(runs, done):
         ev.add_tlc(r, "%s %s: %s" % (modname, label, ", ".join(invs)))
         if r.violated:
             vd.violation("model:" + r.violated, "model: invariant %s violated in %s (%s)" % (r.violated, modname, label), {"tlc_tail": r.out[-4000:], "constants": consts})
@@ -196,10 +234,23 @@ def read_back(img, before, base, j, info):
     return obs, (0 if jsb["start"] == 0 else 1) if jsb["magic_ok"] else -1, nro, stray, jsb
 
 
+NOJSB = {"hi": -1, "lo": -1}
+
+
+def tid_offset(j, seq32):
+    """Offset of a 32-bit tid read from an image from the tid base of journal j (the inverse of Conc of Jbd2.tla on the offsets
+    the universe uses); -1 when it is not such an offset.  Used only to CONTINUE a journal: TLC re-checks it (TReplayed)."""
+    off = (seq32 - J.tid_base(j["cfg"])) & 0xFFFFFFFF
+    if off >= 2 ** 31:
+        off -= 2 ** 32
+    return off if 0 <= off < 2 ** 30 else -1
+
+
 def run_frontends(b, base, src, before, j, info, work, tag, keep=None):
-    """Recover the image src with every front-end on its own copy; the copy of front-end number `keep` is kept."""
+    """Recover the image src with every front-end on its own copy; the copy of front-end number `keep` is kept.
+    jseq32: s_sequence as found (16-bit halves, for TLC); jseq: its offset from the journal's tid base (-1: none)."""
     env = tool_env(b)
-    res = {"obs": [], "jstart": [], "jseq": [], "nro": [], "stray": [], "rc": [], "msg": []}
+    res = {"obs": [], "jstart": [], "jseq": [], "jseq32": [], "nro": [], "stray": [], "rc": [], "msg": []}
     kept = None
     for k, fe in enumerate(FRONTENDS):
         img = os.path.join(work, "j_%s_%s.img" % (tag, fe))
@@ -207,7 +258,8 @@ def run_frontends(b, base, src, before, j, info, work, tag, keep=None):
         rc, out, err = crun(fe_cmd(b, fe, img), env=env, timeout=60)
         obs, js, nro, stray, jsb = read_back(img, before, base, j, info)
         res["obs"].append(obs); res["jstart"].append(js); res["nro"].append(nro); res["stray"].append(stray)
-        res["jseq"].append(jsb["seq"] if jsb["magic_ok"] and jsb["seq"] < 2 ** 30 else -1)
+        res["jseq32"].append(J.halves(jsb["seq"]) if jsb["magic_ok"] else dict(NOJSB))
+        res["jseq"].append(tid_offset(j, jsb["seq"]) if jsb["magic_ok"] else -1)
         res["rc"].append(rc); res["msg"].append((out + err).decode("utf8", "replace")[-400:])
         if k == keep:
             kept = img
@@ -252,12 +304,17 @@ def run_journal(b, base, j, work, tag, g2=None):
 
 
 def load_line(j):
-    return {"e": "load", "cfg": {"L": j["cfg"]["L"], "csum": j["cfg"]["csum"], "async": j["cfg"]["async"]},
+    return {"e": "load", "cfg": {"L": j["cfg"]["L"], "csum": j["cfg"]["csum"], "async": j["cfg"]["async"], "tb": j["cfg"].get("tb", {"hi": 0, "lo": 0})},
             "jsb": j["jsb"], "nr": j["nr"], "fs0": j["fs0"], "log": j["log"], "hist": j["hist"]}
 
 
 def recover_line(res):
-    return {"e": "recover", "obs": res["obs"], "jstart": res["jstart"], "jseq": res["jseq"], "nro": res["nro"], "stray": res["stray"]}
+    return {"e": "recover", "obs": res["obs"], "jstart": res["jstart"], "jseq": res["jseq32"], "nro": res["nro"], "stray": res["stray"]}
+
+
+def h32(h):
+    """16-bit halves -> printable 32-bit value."""
+    return "none" if h["hi"] < 0 else "0x%08x" % ((h["hi"] << 16) | h["lo"])
 
 
 def dumps(x):
@@ -273,7 +330,7 @@ def trace_of_g2(j, res):
     continuation the generator wrote on that image, the second replay by every front-end."""
     g = res["g2"]
     k, j2 = g["fe"], g["j2"]
-    replayed = {"e": "replayed", "fe": k, "obs": res["obs"][k], "jsb": g["seen"], "nro": res["nro"][k]}
+    replayed = {"e": "replayed", "fe": k, "obs": res["obs"][k], "jsb": g["seen"], "seq32": res["jseq32"][k], "nro": res["nro"][k]}
     restart = {"e": "restart", "skew": j2["skew"], "jsb": j2["jsb"], "nr": j2["nr"], "fs0": j2["fs0"], "log": j2["log"], "hist": j2["hist"]}
     return [dumps(load_line(j)), dumps(replayed), dumps(restart), dumps(recover_line(g))]
 
@@ -418,17 +475,18 @@ def conformance(ev, vd, b, work, journals, bases, label, g2of=None):
                     if life == 1:
                         rejected.add(i)
                         o = outs[i]
-                        detail = "%s: observed %s jstart %s s_sequence %s needs_recovery %s stray %s; model %s, s_sequence %s; Final %s, JsbAfter.seq %s; stop reason %r, deviations %s (%s, %s)" % (
-                            what, r2["obs"], r2["jstart"], r2["jseq"], r2["nro"], r2["stray"], o["model"], o["seqmodel"], o["final"], o["seqafter"], o["reason"], o["devs"], prof, j["stratum"])
+                        detail = "%s: observed %s jstart %s s_sequence %s needs_recovery %s stray %s; model %s, s_sequence %s; Final %s, JsbAfter.seq %s; tid base %s; stop reason %r, deviations %s (%s, %s)" % (
+                            what, r2["obs"], r2["jstart"], [h32(x) for x in r2["jseq32"]], r2["nro"], r2["stray"], o["model"], h32(o["seqmodel32"]), o["final"], h32(o["seqafter32"]),
+                            "0x%08x" % J.tid_base(j["cfg"]), o["reason"], o["devs"], prof, j["stratum"])
                         vd.violation("%s@%s" % ("inv:" + inv if inv else "rejected", j["stratum"]["kind"]), detail,
                                      {"journal": j, "profile": prof, "observed": r2, "tlc": o, "tlc_tail": tail[-1500:]})
                     else:
                         rejected2.add(i)
                         g, o = r2["g2"], outs2[i]
-                        detail = ("second life of the log (first replay by %s left s_sequence %s; new log from tid %s): %s: observed %s jstart %s s_sequence %s needs_recovery %s stray %s; "
-                                  "model %s, s_sequence %s; Final of the second life %s, JsbAfter.seq %s; stop reason %r, deviations %s (%s, %s)") % (
-                            FRONTENDS[g["fe"]], g["seen"]["seq"], g["j2"]["jsb"]["seq"], what, g["obs"], g["jstart"], g["jseq"], g["nro"], g["stray"],
-                            o["model"], o["seqmodel"], o["final"], o["seqafter"], o["reason"], o["devs"], prof, g["j2"]["stratum"])
+                        detail = ("second life of the log (first replay by %s left s_sequence %s = base + %s; new log from tid base + %s): %s: observed %s jstart %s s_sequence %s needs_recovery %s stray %s; "
+                                  "model %s, s_sequence %s; Final of the second life %s, JsbAfter.seq %s; tid base %s; stop reason %r, deviations %s (%s, %s)") % (
+                            FRONTENDS[g["fe"]], h32(r2["jseq32"][g["fe"]]), g["seen"]["seq"], g["j2"]["jsb"]["seq"], what, g["obs"], g["jstart"], [h32(x) for x in g["jseq32"]], g["nro"], g["stray"],
+                            o["model"], h32(o["seqmodel32"]), o["final"], h32(o["seqafter32"]), "0x%08x" % J.tid_base(j["cfg"]), o["reason"], o["devs"], prof, g["j2"]["stratum"])
                         vd.violation("%s@gen2:%s" % ("inv:" + inv if inv else "rejected", g["j2"]["stratum"]["kind"]), detail,
                                      {"journal": j, "profile": prof, "g2": dict(g2of(i)), "observed": {k: v for k, v in r2.items() if k != "g2"},
                                       "observed2": {k: v for k, v in g.items() if k != "j2"}, "journal2": g["j2"], "tlc": o, "tlc_tail": tail[-1500:]})
@@ -461,15 +519,18 @@ def conformance(ev, vd, b, work, journals, bases, label, g2of=None):
         o = outs[i]
         k = "csum%d/%s/%s" % (j["cfg"]["csum"], "64" if j["cfg"]["b64"] else "32", "async" if j["cfg"]["async"] else "sync")
         strata[k] = strata.get(k, 0) + 1
+        tk = j["stratum"].get("tid", "base0")
+        tidcov = ev.cov.setdefault("tid_base_strata", {})
+        tidcov[tk] = tidcov.get(tk, 0) + 1
         reasons[o["reason"]] = reasons.get(o["reason"], 0) + 1
         if i not in rejected:
             n1 += 1
             r = results[i]
-            if o["devs"] and (list(r["obs"][0]) != list(o["final"]) or r["jseq"][0] != o["seqafter"]):
+            if o["devs"] and (list(r["obs"][0]) != list(o["final"]) or r["jseq32"][0] != o["seqafter32"]):
                 for d in o["devs"]:
                     devcount[d] = devcount.get(d, 0) + 1
                     vd.violation("Dev" + d, "journal replay differs from the property because of deviation %s" % d,
-                                 {"journal": j, "profile": prof, "observed": r, "final": o["final"], "seqafter": o["seqafter"]})
+                                 {"journal": j, "profile": prof, "observed": r, "final": o["final"], "seqafter": o["seqafter32"]})
             if nontrivial(j):
                 ev.nontrivial(canon(j))
         if g2of(i) is None:
@@ -488,7 +549,7 @@ def conformance(ev, vd, b, work, journals, bases, label, g2of=None):
         for key, val in (("strata", "%s/%s/skew%d" % (st["kind"], st["align"], st["skew"])), ("front_end_of_first_replay", FRONTENDS[g["fe"]]),
                          ("stop_reasons", o2["reason"])):
             g2cov[key][val] = g2cov[key].get(val, 0) + 1
-        if o2["devs"] and (list(g["obs"][0]) != list(o2["final"]) or g["jseq"][0] != o2["seqafter"]):
+        if o2["devs"] and (list(g["obs"][0]) != list(o2["final"]) or g["jseq32"][0] != o2["seqafter32"]):
             for d in o2["devs"]:
                 devcount[d] = devcount.get(d, 0) + 1
                 vd.violation("Dev" + d, "journal replay differs from the property because of deviation %s" % d,
@@ -519,9 +580,10 @@ def run(tier):
         rng = random.Random(seed())
         n = 672 if tier == "quick" else 13440            # multiples of |damage kinds| x |feature configurations| = 224 (each journal: 3 replays + up to 3 of its second life)
         off = (seed() * 7919) % 224
+        toff = (seed() * 104729) % (len(S.TID_KINDS) * len(S.TID_POS))      # stratum of the tid base: cycle of 33, co-prime with the 224
         journals = []
         for i in range(n):
-            j = S.sample(rng, off + i)
+            j = S.sample(rng, off + i, tid=toff + i)
             journals.append((j, profs[0] if i % 4 < 2 else profs[1 + (i % 4) - 2]))
         batch = 2240
         first = None
@@ -536,7 +598,8 @@ def run(tier):
         xcheck_debugfs_writer(ev, vd, b, work, bases["ext4_1k"])
         repo_tests(ev, vd, b, work)
         ev.cov["rule"] = ("journals drawn by a seeded sampler stratified over 16 feature configurations (csum none/v1/v2/v3 x 32/64-bit tags x async) "
-                          "x 14 damage kinds, on 3 image profiles; non-trivial = >= 1 committed transaction and >= 1 of {revoke hit, escaped block, "
+                          "x 14 damage kinds x 33 placements of the tid base (unsigned wrap / signed boundary on the transaction s_sequence + d, d = -1..9 / small base), "
+                          "on 3 image profiles; non-trivial = >= 1 committed transaction and >= 1 of {revoke hit, escaped block, "
                           "ring wrap, uncommitted tail, checksum failure}; distinct by canonical form (cfg, jsb, fs0, log).  Second life of the log: every journal the "
                           "spec allows to continue (RestartableOf) is continued on the image of one front-end (cycling) from the journal superblock found "
                           "there, strata skew 0/1 x alignment x 12 damage kinds; non-trivial = >= 1 committed transaction of the second life and >= 1 control "
@@ -549,7 +612,9 @@ def run(tier):
             "fast-commit replay (ext4_fc_replay*) is not modelled: journals never carry JBD2_FEATURE_INCOMPAT_FAST_COMMIT (DESIGN section 6)",
             "damage is restricted to what the format can detect: control blocks missing/stale/wrongly sequenced, checksum failures where the scheme has a checksum, "
             "data-block damage only under v1 (commit carries the transaction checksum) / v2 / v3; a transaction logs a block at most once",
-            "sequence numbers stay below 2^30 (no tid wrap-around); 64-bit tags carry block numbers < 2^32 (t_blocknr_high = 0)",
+            "transaction identifiers are base + offset modulo 2^32 with offsets below 2^30: the tids of one journal (both lives of its log, stale blocks "
+            "included) span less than 2^30, so the order of two tids is never ambiguous; the base is drawn from the boundary catalogue (tid 0 or tid 0x80000000 on the "
+            "transaction s_sequence + d, d = -1..9, or a small base); 64-bit tags carry block numbers < 2^32 (t_blocknr_high = 0)",
             "target blocks are free data blocks; every other block may be rewritten by the front-ends only if it is filesystem metadata (stray-write check)",
             "internal journal only (journal inode, extent-mapped and block-mapped); external journal devices are exercised by the repository images j_ext_* only",
             "the first front-end is invoked as `e2fsck -y -E journal_only` (with -f the option has no effect: check_if_skip returns early)",
@@ -704,17 +769,17 @@ def replay(path):
         rej, matched, inv, tail, _ = tracecheck.confirm(beh, os.path.join(SPEC, "Trace_Jbd2.tla"), trace_cfg(work, devs), work)
         if g2:
             print("first replay by %s left:" % FRONTENDS[rr["fe"]], json.dumps({"obs": r["obs"][rr["fe"]], "jsb": rr["seen"]}), "second life:", json.dumps(rr["j2"]["stratum"]))
-        print("observed:", json.dumps({k: rr[k] for k in ("obs", "jstart", "jseq", "nro", "stray", "rc")}))
+        print("observed:", json.dumps({k: rr[k] for k in ("obs", "jstart", "jseq", "nro", "stray", "rc")}), "s_sequence", [h32(x) for x in rr["jseq32"]], "tid base 0x%08x" % J.tid_base(j["cfg"]))
         outp = os.path.join(work, "confirm_%d.ndjson.out" % os.getpid())
         o = None
         if os.path.exists(outp):
             o = [json.loads(x) for x in open(outp)][2 if g2 else 0]
-            print("TLC: Final %s JsbAfter.seq %s model %s deviations %s stop reason %r%s" % (o["final"], o["seqafter"], o["model"], o["devs"], o["reason"],
+            print("TLC: Final %s JsbAfter.seq %s model %s deviations %s stop reason %r%s" % (o["final"], h32(o["seqafter32"]), o["model"], o["devs"], o["reason"],
                                                                                              (" restartable %s" % o["restartable"]) if g2 else ""))
         if rej:
             print(tail[-1200:])
             print("VIOLATION property=%s replay=%s" % (PID, path)); return 1
-        if o and o["devs"] and (list(rr["obs"][0]) != list(o["final"]) or rr["jseq"][0] != o["seqafter"]):
+        if o and o["devs"] and (list(rr["obs"][0]) != list(o["final"]) or rr["jseq32"][0] != o["seqafter32"]):
             vd = Verdict(PID, Evidence(PID, "quick", "model_checking")); load_known(vd)
             keys = ["Dev" + x for x in o["devs"]]
             if all(k in vd.known for k in keys):
